@@ -142,8 +142,9 @@ CHECKS["C13"] = dict(
           "_never), its result is the fully resolved content (C13r_blocking_content); each boundary is streamed at most once (C13r_stream_once), never before its lexical parent (C13r_stream_parent_first), the inline "
           "script always finds its markers (C13r_stream_script_never_fails), every boundary that is not loading has been streamed (C13r_stream_live), and once all tasks have finished shell + fragments = the blocking "
           "result = everything resolved, whatever the order (C13r_stream_equals_blocking). Hypotheses (evaluated on every generated view): unique boundary ids, no async component outside the boundaries; "
-          "counterexamples show both are needed. Oracle only (no theorem): a boundary under which a real sycamore-web Resource is read reports loading exactly while the resource's latest fetch is "
-          "outstanding, through every refetch (the histories of C15)."),
+          "counterexamples show both are needed. A Resource read under a boundary (Async/ResourceSus.v: the guards / registered scopes / task-guard bookkeeping of resource.rs that drives the boundary's counter; "
+          "ResourceSusFacts.v): after every history of dependency writes and completions the boundary reports loading exactly while the resource's latest fetch is outstanding (C13s_boundary_loading_iff_resource_loading, "
+          "_iff_latest_outstanding); compared line by line with the real sycamore-web Resource under a real boundary on the histories of C15."),
     note=ATB, design="5.C13")
 CHECKS["C14"] = dict(
     technique="Coq proof (absorbing task status, panic-freedom and counter invariant, by induction over all schedules) on the transition system + fault enumeration (a disposal at every step for every scope) against the real executor + oracle",
